@@ -392,7 +392,11 @@ func workOf(n *ledger.Node) string {
 func snapshotBeyondIndex(img string) bool {
 	snap, err := os.ReadFile(filepath.Join(img, "UTXO.db"))
 	if err != nil || len(snap) < 40 {
-		return false
+		// between the two renames of a save (or after an aborted one) only UTXO.old exists: the loader falls back to it
+		snap, err = os.ReadFile(filepath.Join(img, "UTXO.old"))
+		if err != nil || len(snap) < 40 {
+			return false
+		}
 	}
 	idx, _ := os.ReadFile(filepath.Join(img, "blockchain.new"))
 	for off := 0; off+136 <= len(idx); off += 136 {
